@@ -14,53 +14,55 @@ def _kind(line):
 
 
 def c12_compare(pid, tier, seed, results, built, root, results_dir, run_bin, log):
-    """First differing line between the transcripts of the two builds."""
+    """First differing line between the transcripts of the two builds (and, when the extra feature
+    configurations were run, between each of them and the arkworks build)."""
     paths = {}
     for r in results:
         p = os.path.join(results_dir, f"{pid}-transcript-{r['_flavour']}-release-{tier}.json.transcript")
         if os.path.exists(p):
             paths[r["_flavour"]] = p
-    if set(paths) != {"ark", "min"}:
+    if not {"ark", "min"} <= set(paths):
         return {"inconclusive": ["transcript of one build is missing"]}
     with open(paths["ark"]) as f:
         a = f.read().split("\n")
-    with open(paths["min"]) as f:
-        b = f.read().split("\n")
     violations = []
     sigs = {}
-    n = max(len(a), len(b))
     compared = 0
     kinds = {}
-    i = j = 0
-    # the streams are generated identically, so a plain index-wise comparison is the checker;
-    # once the inputs themselves diverge (a line's left-hand side differs) later lines are not
-    # comparable any more and the comparison of that shard stops.
-    shard = None
-    skip_shard = False
-    for idx in range(n):
-        la = a[idx] if idx < len(a) else "<missing>"
-        lb = b[idx] if idx < len(b) else "<missing>"
-        if la.startswith("# shard"):
-            shard = la
-            skip_shard = False
-        if skip_shard:
-            continue
-        compared += 1
-        k = _kind(la) if la else ""
-        kinds[k] = kinds.get(k, 0) + 1
-        if la != lb:
-            lhs_a, lhs_b = la.split(" -> ")[0], lb.split(" -> ")[0]
-            sig = f"C12:differs:{_kind(la)}"
-            sigs[sig] = sigs.get(sig, 0) + 1
-            if sigs[sig] <= 3:
-                violations.append({"sig": sig, "what": f"builds differ at transcript line {idx + 1} ({shard}): ark `{la[:300]}` vs min `{lb[:300]}`",
-                                   "detail": {"line": idx + 1, "ark": la, "min": lb, "shard": shard}, "events": a[max(0, idx - 5):idx]})
-            if lhs_a != lhs_b:
-                skip_shard = True
+    for other in ["min"] + sorted(k for k in paths if k not in ("ark", "min")):
+        with open(paths[other]) as f:
+            b = f.read().split("\n")
+        tag = "" if other == "min" else f"[ark vs {other}]"
+        n = max(len(a), len(b))
+        # the streams are generated identically, so a plain index-wise comparison is the checker;
+        # once the inputs themselves diverge (a line's left-hand side differs) later lines are not
+        # comparable any more and the comparison of that shard stops.
+        shard = None
+        skip_shard = False
+        for idx in range(n):
+            la = a[idx] if idx < len(a) else "<missing>"
+            lb = b[idx] if idx < len(b) else "<missing>"
+            if la.startswith("# shard"):
+                shard = la
+                skip_shard = False
+            if skip_shard:
+                continue
+            compared += 1
+            k = _kind(la) if la else ""
+            kinds[k] = kinds.get(k, 0) + 1
+            if la != lb:
+                lhs_a, lhs_b = la.split(" -> ")[0], lb.split(" -> ")[0]
+                sig = f"C12:differs{tag}:{_kind(la)}"
+                sigs[sig] = sigs.get(sig, 0) + 1
+                if sigs[sig] <= 3:
+                    violations.append({"sig": sig, "what": f"builds differ at transcript line {idx + 1} ({shard}): ark `{la[:300]}` vs {other} `{lb[:300]}`",
+                                       "detail": {"line": idx + 1, "ark": la, other: lb, "shard": shard}, "events": a[max(0, idx - 5):idx]})
+                if lhs_a != lhs_b:
+                    skip_shard = True
     res = {"evaluations": compared, "distinct_nontrivial": 0, "violations": violations, "violation_signatures": sigs,
-           "violation_count": sum(sigs.values()), "counters": {"transcript_lines_compared": compared},
+           "violation_count": sum(sigs.values()), "counters": {"transcript_lines_compared": compared, "transcripts": len(paths)},
            "samples": [{"compared_line_pair": a[5] if len(a) > 5 else ""}],
-           "_flavour": "ark+min", "_profile": "release", "_sub": "compare", "inconclusive": []}
+           "_flavour": "+".join(sorted(paths)), "_profile": "release", "_sub": "compare", "inconclusive": []}
     if compared < 1000:
         res["inconclusive"].append("fewer than 1000 transcript lines compared")
     return {"result": res}
